@@ -943,8 +943,12 @@ public:
 	{
 		return ::mpt::unused(generic());
 	}
-	inline bool swap(long p1, long p2) const
+	inline bool swap(long p1, long p2)
 	{
+		/* elements may be shared with a copy of the array */
+		if (!this->detach()) {
+			return false;
+		}
 		return ::mpt::swap(generic(), p1, p2);
 	}
 };
